@@ -33,6 +33,7 @@ Deviations == { "AckAfterHandlerStart",  \* the handler goroutine is started bef
                 "CloseWrongEntry",       \* close-stream removes another stream's entry
                 "DupDeliver",            \* a message is queued twice
                 "CrossDeliver",          \* a message is queued on another stream
+                "WriteFailDropsRoute",   \* a failed write of a stream message removes the opening call's entry, so later messages of the server are dropped
                 "WriteFailDropsStream" } \* a failed write of a stream message removes the stream from the connection's table, so the sweep misses it
 ASSUME Dev \subseteq Deviations
 DevChoice(d) == IF d \in Dev THEN BOOLEAN ELSE {FALSE}
@@ -102,6 +103,7 @@ ReaderFrame(dFlipInCaller, dDup, dCross) ==
                  /\ cph' = [cph EXCEPT ![s] = IF @ = "opening" THEN "acked" ELSE @]
                  /\ flipped' = IF dFlipInCaller THEN flipped ELSE [flipped EXCEPT ![s] = TRUE]   \* intended: the reader flips, under the lock
                  /\ UNCHANGED cq
+            ELSE IF "WriteFailDropsRoute" \in Dev /\ nbad[s] > 0 THEN UNCHANGED <<cph, flipped, cq>>   \* deviation: the routing entry went with the failed write
             ELSE \* a stream message (an ack arriving now is delivered as an empty message)
                  LET t == IF dCross /\ \E o \in Streams : o # s THEN CHOOSE o \in Streams : o # s ELSE s
                      m == IF f.k = "msg" THEN Msg(s, "s2c", f.n) ELSE Msg(s, "s2c", 0) IN
